@@ -79,5 +79,5 @@ Fixpoint sent_words (pos : nat) (its : list sitem) : list span :=
   end.
 
 (* ---------- entry point for the extracted driver: None = not a sentence of the class ---------- *)
-Definition run_sentence (u : uni) (its : list sitem) : option (text * list span) :=
-  if sent_ok u its then Some (sent_text its, sent_words 0 its) else None.
+Definition run_sentence (u : uni) (its : list sitem) : option (text * list span * list span) :=
+  if sent_ok u its then Some (sent_text its, map tspan (sent_tokens 0 its), sent_words 0 its) else None.
